@@ -47,6 +47,11 @@ func (e *ATExecutor) Interceptors(hooks []exec.SQLHook) {
 func (e *ATExecutor) ExecWithNamedValue(ctx context.Context, execCtx *types.ExecContext, f exec.CallbackWithNamedValue) (types.ExecResult, error) {
 	queryParser, err := parser.DoParser(execCtx.Query)
 	if err != nil {
+		if !tm.IsGlobalTx(ctx) {
+			// outside a global transaction the proxy is a pass-through: MySQL accepts statements
+			// this parser rejects (SAVEPOINT, XA, SELECT ... INTO @v, ...)
+			return f(ctx, execCtx.Query, execCtx.NamedValues)
+		}
 		return nil, err
 	}
 
